@@ -38,8 +38,8 @@ import (
 	"time"
 
 	"connectrpc.com/conformance/internal"
-	"connectrpc.com/conformance/internal/compression"
 	rs "connectrpc.com/conformance/internal/app/referenceserver"
+	"connectrpc.com/conformance/internal/compression"
 	conformancev1 "connectrpc.com/conformance/internal/gen/proto/go/connectrpc/conformance/v1"
 	"connectrpc.com/conformance/internal/verifharness/gen"
 	"github.com/quic-go/quic-go"
@@ -65,7 +65,7 @@ type c12RealIn struct {
 	Name     string  `json:"name"`
 	Times    int     `json:"times"`
 	Trailers int     `json:"trailers"`
-	Timeout  *string `json:"timeout"` // hex; sent in the timeout header of the actual protocol
+	Timeout  *string `json:"timeout"`       // hex; sent in the timeout header of the actual protocol
 	Pad      *c12Pad `json:"pad,omitempty"` // a value the feedback echoes made longer (c12ApplyPad: expect | timeout)
 	// Traced: the server is given a tracer (runner started with --trace): createServer installs
 	// tracer.TracingHandler around the checks
@@ -93,9 +93,9 @@ type c12RealObs struct {
 // ---------------------------------------------------------------- certificates (once per process)
 
 var c12Certs struct {
-	once                                       sync.Once
+	once                                         sync.Once
 	serverCert, serverKey, clientCert, clientKey []byte
-	err                                        error
+	err                                          error
 }
 
 func c12GetCerts() error {
